@@ -564,6 +564,27 @@ def body(chk, db, cfgname):
                         r6.ok(site, f.loc(j), "== %s" % want_, cfgname)
                     else:
                         r6.bad(site, f.loc(j), "after the merge %s is %s, expected %s" % (fldname, got, want_), cfgname)
+    # ================================================================== R7
+    r7 = chk.rule("C02-R7", "tolerances set on the container / on the function reach the parts under their own names (resonance tolerance -> resonance tolerance, ...)", "F4 same-role wiring", 6)
+    for f in sorted([x for x in db.fns.values() if x.rec in (G2, "Pomerol::TwoParticleGFContainer") and x.body is not None and x.body >= 0], key=lambda x: (x.file, x.line)):
+        ctx = Ctx(f, db)
+        for j, n in f.walk(f.body):
+            if not (n["k"] == "bin" and n["op"] == "="):
+                continue
+            lk = ctx.key(n["l"], inline=False)
+            rk = ctx.key(n["r"], inline=False)
+            if not (lk[0] == "field" and lk[1].endswith("Tolerance") and lk[2] != THIS):
+                continue
+            lname = lk[1].split("::")[-1]
+            site = "%s:%s" % (f.qn, lname)
+            if rk[0] == "field" and rk[2] == THIS and rk[1].endswith("Tolerance"):
+                rname = rk[1].split("::")[-1]
+                if rname == lname:
+                    r7.ok(site, f.loc(j), "%s <- this->%s" % (lname, rname), cfgname)
+                else:
+                    r7.bad(site, f.loc(j), "%s of the part/element is set from this->%s: the tolerance the user configured is ignored and a value meant for another purpose (e.g. 1e-16 instead of 1e-8) decides the resonance branch" % (lname, rname), cfgname)
+            else:
+                r7.unknown(site, f.loc(j), "tolerance assigned from %s" % f.s(n["r"])[:60], cfgname)
     chk.undecided.append("equality with the triple Fourier integral of <T c c c+ c+>; the resonance decision for numerically near-degenerate levels (runtime comparison with ReduceResonanceTolerance)")
 
 
